@@ -16,9 +16,10 @@ Adapters == {"proto", "codec", "clonefunc", "copyfunc"}
 Types == {"Message", "HttpTrailer", "Duration"}
 
 \* destination kinds for Copy: same type (empty or populated), the dynamic
-\* representation of the same type, a different message type, a pointer to
-\* something that is not a protobuf message
-Dsts == {"empty", "populated", "dyn-empty", "dyn-populated", "othertype", "nonproto"}
+\* representation of the same type, a different message type (generated, or
+\* its dynamic representation -- all dynamic messages share one Go type), a
+\* pointer to something that is not a protobuf message
+Dsts == {"empty", "populated", "dyn-empty", "dyn-populated", "othertype", "dyn-othertype", "nonproto"}
 
 AdapterCases ==
   [fam : {"adapter"}, adapter : Adapters, op : {"clone"}, type : Types, shape : Shapes, srcrep : {"gen", "dyn"},
@@ -39,9 +40,9 @@ V(ok, why) == IF ok THEN {} ELSE {why}
 CrossRep(c) == (c.srcrep = "dyn") # (c.dst \in {"dyn-empty", "dyn-populated"})
 MustSucceed(c) ==
   IF c.op = "clone" THEN TRUE
-  ELSE /\ c.dst \notin {"othertype", "nonproto"}
+  ELSE /\ c.dst \notin {"othertype", "dyn-othertype", "nonproto"}
        /\ (~CrossRep(c) \/ c.adapter \in {"proto", "codec"})
-MustRefuse(c) == c.op = "copy" /\ c.dst \in {"othertype", "nonproto"}
+MustRefuse(c) == c.op = "copy" /\ c.dst \in {"othertype", "dyn-othertype", "nonproto"}
 
 \* o: case fields + err (refused), equal, disjoint, srcsame, dstuntouched
 \* (the destination shares nothing with the source after a refusal), panicked
